@@ -57,8 +57,8 @@ EXCEPTIONS = [
      'order).  Run-time repair choice, not a build artefact: none of C15\'s numbering / table / generated-code clauses is reached'),
     ('lrlex::ctbuilder::CTLexerBuilder::build', 'hash::set::HashSet<alloc::string::String', ['print', 'collect into an ordered Vec'],
      'order of warning lines about tokens missing from the lexer (eprintln / cargo:warning); no effect on generated code'),
-    ('lrlex::ctbuilder::CTLexerBuilder::build', 'hash::set::HashSet<(alloc::string::String, cfgrammar::span::Span)', ['extend on alloc::vec::Vec<alloc::string::String'],
-     'order of warning lines about tokens missing from the parser (the Vec<String> is only printed); no effect on generated code'),
+    ('lrlex::ctbuilder::CTLexerBuilder::build', 'hash::set::HashSet<(alloc::string::String, cfgrammar::span::Span)', ['extend on alloc::vec::Vec<alloc::string::String', 'push on alloc::vec::Vec<alloc::string::String'],
+     'order of warning lines about tokens missing from the parser (the Vec<String> the lines are appended to - by extend or by push - is only printed); no effect on generated code'),
     ('lrlex::ctbuilder::CTTokenMapBuilder::new', 'hash::map::HashMap<alloc::string::String, StorageT', ['collect into an ordered Vec'],
      'the collected Vec is a private field whose only reader, CTTokenMapBuilder::build, sorts a clone by token name before emitting'),
 ]
@@ -214,6 +214,8 @@ def loop_effects(body, facts, loop_blocks, next_bb):
         # exits other than the iterator's own None test
         if b != next_bb:
             for s in body.succs(b):
+                if s not in loop_blocks and body.term(s)['k'] == 'unreachable' and not body.blocks[s]['stmts']:
+                    continue        # the `otherwise` edge of an exhaustive enum switch: not a way out
                 if s not in loop_blocks:
                     tt = body.term(b)
                     # the switch on next()'s result lives in the block after next_bb
